@@ -36,7 +36,7 @@ def _elem(v):
 
 def _map(x, fn, fallback):
     if not _isobj(x):
-        if isinstance(x, (int, float)) and fn is not None and SYMBOLIC_CONST[0]:
+        if type(x) in (int, float) and fn is not None and SYMBOLIC_CONST[0]:
             return fn(_elem(x))
         return fallback(x)
     if isinstance(x, (RF, Angle)):
